@@ -684,6 +684,8 @@ func runReg(args []string) string {
 	lastSeen := map[int]int{}
 	var removers []sse.EventCallbackRemover
 	var wrongType []string
+	armCancel := false
+	nEvents := 0
 	mkcb := func(k int, want *string) sse.EventCallback {
 		return func(e sse.Event) {
 			mu.Lock()
@@ -691,6 +693,12 @@ func runReg(args []string) string {
 			if evIdx < 0 {
 				ordOK = false
 				return
+			}
+			if armCancel {
+				// a callback that cancels the request's context while it handles an event: the callbacks still to be
+				// called for this event are called all the same
+				armCancel = false
+				cancel()
 			}
 			log[evIdx] = append(log[evIdx], k)
 			if last, ok := lastSeen[k]; ok && last >= evIdx {
@@ -728,6 +736,10 @@ func runReg(args []string) string {
 			evIdx = len(log)
 			log = append(log, nil)
 			data := fmt.Sprintf("x%d", evIdx)
+			nEvents++
+			if nEvents == 3 && len(ops)%2 == 1 {
+				armCancel = true // the third event of every other script: its first callback cancels the context
+			}
 			mu.Unlock()
 			if args[0] == "c" || args[0] == "w" {
 				text := "data: " + data + "\n\n"
